@@ -5,6 +5,7 @@ import (
 	"os"
 	"path/filepath"
 	"sort"
+	"strings"
 	"sync"
 	"sync/atomic"
 	"testing"
@@ -17,7 +18,7 @@ import (
 )
 
 const c13Rule = "(a) rapid-generated sequential histories on the multihash primary with GC cycles, flushes and reopens: the expected multiset of freed locations (the location a key had immediately before each overwrite with a different value, each successful Remove and each GC relocation, read through the public Index().Get) must equal the observed multiset = batches handed to and fully processed by GC (read from the .gc file at the named point before it is removed) + entries left in .free/.free.gc after a final flush; no observed entry may be a current location at hand-over time or at the end; after a completed cycle every delivered location is marked deleted or truncated away. " +
-	"(b) concurrent histories on the freelist package alone (putters, Flush, ToGC with the consumer deleting the .gc file, delays injected at the named points inside Flush/ToGC from a generated schedule): multiset of all Puts = batches + final file. " +
+	"(c) crash clause: workloads of the C03 generator under the crash recorder; for drawn crash images (preferably inside the hand-over / freelist processing) every complete entry that was in .free/.free.gc when the process died must, after recovery, a flush and two GC cycles, name a dead record. (b) concurrent histories on the freelist package alone (putters, Flush, ToGC with the consumer deleting the .gc file, delays injected at the named points inside Flush/ToGC from a generated schedule): multiset of all Puts = batches + final file. " +
 	"non-trivial = (a) >=3 superseded locations spread over >=2 completed hand-overs, (b) >=2 hand-overs while puts were in flight; distinct = distinct canonical JSON of the case"
 
 type c13Stats struct {
@@ -352,7 +353,7 @@ func runFL(c FLCase) (handoversInFlight int, v *Violation) {
 func TestC13(t *testing.T) {
 	ev := newEvidence("C13", "exploration", c13Rule)
 	defer ev.Write()
-	own := map[string]bool{"freed-location-lost": true, "freed-location-duplicated": true, "unexpected-freed-location": true,
+	own := map[string]bool{"recorded-entry-lost-by-crash": true, "freed-location-lost": true, "freed-location-duplicated": true, "unexpected-freed-location": true,
 		"current-location-recorded": true, "current-location-handed-to-gc": true, "delivered-not-deleted": true, "location-changed": true}
 	judge := func(v *Violation) *Violation {
 		if v == nil {
@@ -424,6 +425,112 @@ func TestC13(t *testing.T) {
 			rt.Fatalf("%v", v)
 		}
 	})
+	// (c) crash clause: entries that had reached the freelist file or the
+	// handed-over .gc file when the process died are not lost by the
+	// hand-over protocol: after recovery, a flush and two GC cycles, the
+	// record of every such entry is dead (marked deleted, truncated away or
+	// its file gone). Workloads of the C03 generator (multihash primary) run
+	// under the crash recorder; drawn images, mostly inside GC.
+	crashImages := 0
+	checkCrashImage := func(cfg Config, st crashState) *Violation {
+		var ents []fsckEntry
+		for _, name := range []string{idxBase + ".free", idxBase + ".free.gc"} {
+			b := st.Image[name]
+			for p := 0; p+12 <= len(b); p += 12 {
+				ents = append(ents, fsckEntry{Offset: u64(b[p:]), Size: u32(b[p+8:])})
+			}
+		}
+		if len(ents) == 0 {
+			return nil
+		}
+		dir := newScratch("flrec")
+		defer os.RemoveAll(dir)
+		st.Image.writeTo(dir)
+		s, err := openStore(dir, cfg)
+		if err != nil {
+			return nil // C03's subject
+		}
+		defer closeQuietly(s)
+		mp := mhPrimaryOf(s)
+		if mp == nil {
+			return nil
+		}
+		site := crashSite(RecoveryReplay{Point: st.Point, Torn: st.Torn})
+		return guard(0, "freelist-recovery", func() *Violation {
+			for i := 0; i < 2; i++ {
+				if err := s.Flush(); err != nil {
+					return nil
+				}
+				if _, err := mp.GC(bg, 100); err != nil {
+					return nil // an error return of a cycle is not a violation by itself
+				}
+			}
+			P := effectiveSize(cfg.PrimSize)
+			for _, e := range ents {
+				fn := uint32(e.Offset / P)
+				data, err := os.ReadFile(filepath.Join(dir, fmt.Sprintf("%s.%d", dataBase, fn)))
+				if err != nil {
+					continue // file gone
+				}
+				local := e.Offset - uint64(fn)*P
+				if local+4 > uint64(len(data)) {
+					continue // truncated away
+				}
+				raw := u32(data[local:])
+				if raw&fsckDeleted == 0 && raw == e.Size {
+					return viol("recorded-entry-lost-by-crash|"+site+"|", 0, "location %d/%d was in the freelist files when the process died, but after recovery, flush and two GC cycles its record is still not marked deleted", e.Offset, e.Size)
+				}
+			}
+			return nil
+		})
+	}
+	setRapidChecks(budget(700, 1500))
+	rapid.Check(t, func(rt *rapid.T) {
+		if pastDeadline() {
+			ev.Skip()
+			return
+		}
+		cc := genCrashCase(rt)
+		cc.Seq.Cfg.Primary = "multihash"
+		for i := range cc.Seq.Keys {
+			cc.Seq.Keys[i].CidV0 = false
+		}
+		cr := runCrashWorkload(cc)
+		if !cr.workloadOK || cr.total == 0 {
+			ev.Class("crash:workload-failed(foreign)", 1)
+			return
+		}
+		// Prefer states inside the GC hand-over and freelist processing.
+		var gcStates []int
+		for i, m := range cr.rec.meta {
+			if strings.HasPrefix(m.Point, "pgc.") || strings.HasPrefix(m.Point, "fl.") {
+				gcStates = append(gcStates, i)
+			}
+		}
+		for j, p := range cc.Picks[:4] {
+			var st crashState
+			switch {
+			case j < 2 && len(gcStates) > 0:
+				st = cr.rec.pointState(gcStates[p%len(gcStates)])
+			case j == 2 && len(cr.specs) > 0:
+				spec := cr.specs[p%len(cr.specs)]
+				st = cr.rec.tornState(spec, (p/7919)%spec.count())
+			default:
+				st = cr.state(p % len(cr.rec.snaps))
+			}
+			crashImages++
+			inGC := strings.HasPrefix(st.Point, "pgc.") || strings.HasPrefix(st.Point, "fl.")
+			v := checkCrashImage(cc.Seq.Cfg, st)
+			ev.Record(struct{ H string }{st.Image.hash()}, inGC && (len(st.Image[idxBase+".free"]) >= 12 || len(st.Image[idxBase+".free.gc"]) >= 12), "crash:image")
+			if v != nil {
+				rp := buildReplay(cc, st, cr.models)
+				if ev.Report(v, rp) {
+					rt.Fatalf("%v", v)
+				}
+			}
+		}
+	})
+	ev.Extra["crash_images_checked"] = crashImages
 	setRapidChecks(budget(1500, 3000))
 	rapid.Check(t, func(rt *rapid.T) {
 		if pastDeadline() {
